@@ -184,6 +184,17 @@ Theorem C09_reply_pairs_with_request : forall b e out, bytes_ok b ->
 Proof. exact reply_pairs. Qed.
 Print Assumptions C09_reply_pairs_with_request.
 
+(* nts.MaxPacketLen = 1024: a longer datagram is never answered by either listener, in any
+   environment (1025..2048 bytes reach nts.DecodePacket and fail there; longer ones do not fit
+   the IP listener's buffer) *)
+Theorem C09_oversize_nts_not_answered : forall b e, 1024 < zlen b ->
+  ntp_decision b e = NoReply /\ ip_decision b e = NoReply.
+Proof.
+  intros b e H. split; [exact (oversize_nts_not_answered b e H)|].
+  unfold ip_decision. destruct (_ <? _); [reflexivity | exact (oversize_nts_not_answered b e H)].
+Qed.
+Print Assumptions C09_oversize_nts_not_answered.
+
 (* ---- the same for whole histories: every exchange of every history passes the oracle,
         whatever the listener handled before it (the oracle of the "ip" case kind is
         C09_hist_ok over the probe and sentinel exchanges of all steps) ---- *)
